@@ -61,7 +61,29 @@ LISTEXT_LAWS = [
     "Marwood.Lemmas.Good.LDemo.sDemo_pinv",
     "Marwood.Lemmas.Good.LDemo.sDemo_sizeBounded",
 ]
+# wave 11 (work package listext-c06): the two laws of T06.6 (waves 9-10) at the real builtins. A separate list: these
+# theorems live in Lemmas/ListExtNoPanic.lean / ListExtEnv.lean, reachable from Lemmas/ListExtC06.lean only (the modules
+# audited by C03, C04, C05, C07, C12, C13, C18 do not import them). Used by lib/props/c06.py.
+LISTEXT_LAWS_C06 = [
+    "Marwood.Lemmas.Good.evalPrim_np",
+    "Marwood.Lemmas.Good.listExtWith_noPanic",
+    "Marwood.Lemmas.Taint.listExtWith_taint",
+    "Marwood.Lemmas.Good.cwrite_val_fit",
+    "Marwood.Lemmas.Good.listExtWith_fit",
+    "Marwood.Lemmas.Good.listExtWith_envInv",
+    "Marwood.Lemmas.Good.LDemo.sDemo_npinv",
+    "Marwood.Lemmas.Good.LDemo.sDemo_envInv",
+]
 LISTEXT = {
+ "C06": [
+  "Marwood.Proofs.C06.step_never_panics_listExt",
+  "Marwood.Proofs.C06.run_never_panics_listExt",
+  "Marwood.Proofs.C06.eval_never_panics_listExt",
+  "Marwood.Proofs.C06.history_never_panics_listExt",
+  "Marwood.Proofs.C06.demo_hypotheses",
+  "Marwood.Proofs.C06.demo_steps_never_panic",
+  "Marwood.Proofs.C06.demo_run_never_panics"
+ ],
  "C03": [
   "Marwood.Proofs.C03.calleeOkAlong_listExt",
   "Marwood.Proofs.C03.gc_unobservable_listExt",
@@ -113,4 +135,26 @@ LISTEXT_NOTE = (
     "a table builtin on real states, the driver computes the result with ListExt.builtinEval and the whole post-state is "
     "compared with the real VM). Builtins outside the table still go through the law structures (failingExt_* show "
     "satisfiability; C06/C08/C14/C15 model them one by one at the value level)."
+)
+
+
+LISTEXT_NOTE_C06 = (
+    " WAVE 11 (T06.6 at real builtins): the two laws T06.6 asks of the unmodelled operations are THEOREMS for listExtWith "
+    "eqTag (Vm/ListExt.lean, the 17 Rust builtins car cdr cons set-car! set-cdr! null? pair? eq? not eqv? and the type "
+    "predicates over the concrete heap) - both AS STATED, no premise had to be added: listExtWith_noPanic : ExtNoPanic "
+    "(Lemmas/ListExtNoPanic.lean; evalPrim_np: no builtin of the table has a panic site on ANY heap and argument list - the "
+    "law's premises HG / VOk are not used; the heap a builtin returns is reached by heap.puts and overwrites with val "
+    "cells (Eff), so no continuation cell and no lambda cell is created) and listExtWith_envInv : ExtEnvInv = ExtTaint + "
+    "ExtFit (Lemmas/ListExtEnv.lean; ExtTaint mirrors listExtWith_proc with capAt for entryAt, the premise LF h was "
+    "already part of the law; ExtFit: cons = two puts of first-class values = FStep NoClaim; set-car!/set-cdr! = one put "
+    "and the overwrite of a val cell by a non-closure val cell, which changes no lambda and no environment cell: "
+    "cwrite_val_fit; no builtin of the table returns an inline closure). Hence step_/run_/eval_/history_never_panics_"
+    "listExt (Lemmas/ListExtC06.lean) = the four closed T06.6 theorems with NO hypothesis about builtins: what remains is "
+    "VmOkP, NPInv, EnvInv of the INITIAL state (of every prepared state for a history: HistGoodE) and SizeBounded. "
+    "Non-vacuity: demo_hypotheses (LDemo.sDemo, the hand-assembled (define p (cons 1 2)) (set-car! p 3) (car p), "
+    "satisfies all four; sDemo_npinv / sDemo_envInv through the executable checks), demo_steps_never_panic (every state "
+    "of the 17-instruction run, under any interleaving of utilisation-tested collections, through the theorem), "
+    "demo_run_never_panics (no run of the demo ends in a panic for any budget and fuel: the theorem leaves apply's guard, "
+    "the program has no apply). Builtins outside the table still go through ExtNoPanic / ExtEnvInv as parameters "
+    "(failingExt_noPanic, failingExt_envInv show satisfiability) and through the exploration streams of this property."
 )
